@@ -396,6 +396,34 @@ func ruleAnonTag(c *Ctx, rule string) {
 				consulted = true
 			}
 		}
+		if consulted {
+			// encoding/json promotes an embedded struct's fields unless the tag gives it a NAME: a tag with
+			// options only (`json:",omitempty"`) still promotes. The decision must look at the name, not at the tag's presence.
+			presenceOnly, byName := "", false
+			core.EachInstr(m.fn, func(j ssa.Instruction) {
+				jf, ok := j.(*ssa.If)
+				if !ok || !region.Dominates(jf.Block()) {
+					return
+				}
+				cond := jf.Cond
+				for {
+					if u, ok := cond.(*ssa.UnOp); ok && u.Op == token.NOT {
+						cond = u.X
+						continue
+					}
+					break
+				}
+				if ex, ok := cond.(*ssa.Extract); ok && ex.Index == 1 {
+					if call, ok := ex.Tuple.(*ssa.Call); ok && core.CalleeKey(&call.Call) == "reflect.StructTag.Lookup" {
+						presenceOnly = c.pos(jf)
+					}
+				}
+				if bo, ok := cond.(*ssa.BinOp); ok && (bo.Op == token.EQL || bo.Op == token.NEQ) && tString(bo.X.Type()) && c.dependsOnTag(bo, 6) {
+					byName = true
+				}
+			})
+			c.R.Check(presenceOnly == "" || byName, rule, "forType:field.Anonymous:by-tag-name", c.pos(ifi), "whether an embedded struct is a named property is decided by the tag's name", "an embedded struct is treated as a named property as soon as it has a json tag (test at "+presenceOnly+"), but encoding/json does so only when the tag gives a name: with `json:\",omitempty\"` the fields are still promoted, and the inferred schema (closed, one nested property) rejects every value of the type")
+		}
 		c.R.Check(consulted, rule, "forType:field.Anonymous", c.pos(ifi), "an embedded field's json tag is consulted before it is flattened", "an embedded field is skipped (its promoted fields are inlined) without consulting its json tag: `Outer{Inner `json:\"inner\"`}` marshals as {\"inner\":{...}} but the inferred schema is flat and closed, so the encoding is rejected and documents the schema accepts do not decode")
 	})
 	c.R.Floor(rule, "tests of reflect.StructField.Anonymous in the inference function", n, 1)
@@ -1006,6 +1034,26 @@ func ruleC16Cycle(c *Ctx) {
 		}
 	})
 	c.R.Check(okDom && core.Dominates(test, mark), rule, "mark-before-recursion", c.pos(mark), "named types are tested and marked before the function recurses", "a recursive call can be reached before the type was tested and marked")
+	// the mark is conditional only on the type being named (and not yet seen)
+	var extra []string
+	for _, g := range guardsOf(mark) {
+		if g.Cond == test {
+			continue
+		}
+		if bo, ok := g.Cond.(*ssa.BinOp); ok {
+			if nc, ok := bo.X.(*ssa.Call); ok && nc.Call.IsInvoke() && nc.Call.Method.Name() == "Name" {
+				continue
+			}
+			if c.isKindDispatch(g.Cond) {
+				// the pointer-stripping loop
+				continue
+			}
+		}
+		if skippable(g, mark) {
+			extra = append(extra, c.pos(g.At))
+		}
+	}
+	c.R.Check(len(extra) == 0, rule, "mark-every-named-type", c.pos(mark), "every named type is entered in the cycle set", fmt.Sprintf("only some named types are entered in the cycle set (further conditions at %v): a recursive type of another kind (e.g. type Tree map[string]Tree) recurses until the stack overflows", extra))
 	// the mark is removed by a deferred delete registered right after it
 	c.R.Check(unmark != nil && core.Dominates(mark, unmark) && unmark.Block() == mark.Block(), rule, "unmark-deferred", c.pos(mark), "the mark is removed by a deferred delete on every exit", "the cycle mark is not removed by a deferred delete registered with it (explicit deletes miss some exits, e.g. the `return nil, nil` of an ignored invalid type): a type that occurs twice is then reported as a cycle")
 	_ = plainDeletes
@@ -1046,6 +1094,9 @@ func ruleC16SkipPrefix(c *Ctx) {
 			ia, ok := ld.X.(*ssa.IndexAddr)
 			if !ok {
 				return false
+			}
+			if _, isConst := ia.Index.(*ssa.Const); isConst {
+				return false // a fixed position compares only one level of the path
 			}
 			return c.mentionsNamedField(ia.X, "Index", 4)
 		}
@@ -1128,4 +1179,52 @@ func dependsOnInPkgCallWithField(c *Ctx, cond ssa.Value, fields []string) bool {
 		return false
 	}
 	return walk(cond, 6)
+}
+
+// dependsOnTag: v is computed from the json tag of a struct field (a StructTag lookup, or the
+// result of a package function that takes the reflect.StructField).
+func (c *Ctx) dependsOnTag(v ssa.Value, depth int) bool {
+	if v == nil || depth == 0 {
+		return false
+	}
+	switch x := v.(type) {
+	case *ssa.Call:
+		key := core.CalleeKey(&x.Call)
+		if key == "reflect.StructTag.Lookup" || key == "reflect.StructTag.Get" {
+			return true
+		}
+		if callee := x.Call.StaticCallee(); callee != nil && c.P.InPkg(callee) && callee.Signature.Params().Len() == 1 && isNamed(callee.Signature.Params().At(0).Type(), "reflect", "StructField") {
+			return true
+		}
+		for _, a := range x.Call.Args {
+			if c.dependsOnTag(a, depth-1) {
+				return true
+			}
+		}
+	case *ssa.Extract:
+		return c.dependsOnTag(x.Tuple, depth-1)
+	case *ssa.BinOp:
+		return c.dependsOnTag(x.X, depth-1) || c.dependsOnTag(x.Y, depth-1)
+	case *ssa.UnOp:
+		return c.dependsOnTag(x.X, depth-1)
+	case *ssa.Field:
+		return c.dependsOnTag(x.X, depth-1)
+	case *ssa.FieldAddr:
+		return c.dependsOnTag(x.X, depth-1)
+	case *ssa.Slice:
+		return c.dependsOnTag(x.X, depth-1)
+	case *ssa.Phi:
+		for _, e := range x.Edges {
+			if c.dependsOnTag(e, depth-1) {
+				return true
+			}
+		}
+	case *ssa.Alloc:
+		for _, st := range cellStores(x) {
+			if c.dependsOnTag(st, depth-1) {
+				return true
+			}
+		}
+	}
+	return false
 }
